@@ -360,7 +360,7 @@ func (r *Run) Finish() int {
 func oneLine(s string) string {
 	s = strings.ReplaceAll(s, "\n", " ")
 	if len(s) > 300 {
-		s = s[:300] + "..."
+		s = strings.ToValidUTF8(s[:300], "") + "..."
 	}
 	return s
 }
